@@ -14,21 +14,21 @@ PROPS = {
                 relevant={"pub", "pull", "sread", "stats", "sopen"}),
     "C02": dict(module="Deltio.Props.C02", conc=[("mix", 120, 5000)], trace_kinds={"ack"}, seq=[("data", 250, 10000, 50)], pure=["tracker", "ackids"],
                 relevant={"ack", "ssend", "pull", "sread", "stats"}),
-    "C03": dict(module="Deltio.Props.C03", conc=[("mix", 120, 5000), ("cancel", 80, 3000)], trace_kinds={"pull", "expire", "modify", "ack"}, seq=[("data", 250, 10000, 50), ("batches", 40, 1500, 40)], pure=["tracker"],
+    "C03": dict(module="Deltio.Props.C03", conc=[("mix", 120, 5000), ("cancel", 80, 3000), ("abandonpull", 60, 2000)], trace_kinds={"pull", "expire", "modify", "ack"}, seq=[("data", 250, 10000, 50), ("batches", 40, 1500, 40)], pure=["tracker"],
                 relevant={"pull", "sread"}),
-    "C04": dict(module="Deltio.Props.C04", conc=[("mix", 60, 3000)], trace_kinds={"pull", "expire"}, seq=[("deadlines", 300, 12000, 50)], pure=["rounds", "tracker"],
+    "C04": dict(module="Deltio.Props.C04", conc=[("mix", 60, 3000), ("abandonpull", 100, 3000)], trace_kinds={"pull", "expire"}, seq=[("deadlines", 300, 12000, 50)], pure=["rounds", "tracker"],
                 relevant={"pull", "sread", "stats", "adv", "clock", "csub"}),
     "C05": dict(module="Deltio.Props.C05", conc=[("mix", 60, 3000)], trace_kinds={"modify"}, seq=[("deadlines", 300, 12000, 50)], pure=["ext", "tracker"],
                 relevant={"mod", "ssend", "pull", "sread", "stats"}),
-    "C08": dict(module="Deltio.Props.C08", p6=True, conc=[("mix", 120, 5000), ("pubdel", 150, 4000)], trace_kinds={"publish", "publish.ids", "post", "post.order", "pull"}, seq=[("data", 200, 8000, 50), ("general", 100, 4000, 40)], pure=[],
+    "C08": dict(module="Deltio.Props.C08", p6=True, conc=[("mix", 120, 5000), ("pubdel", 150, 4000)], trace_kinds={"publish", "publish.ids", "post", "post.order", "pull"}, seq=[("data", 200, 8000, 50), ("general", 100, 4000, 40), ("bigmsg", 1, 6, 0)], pure=[],
                 relevant={"pub", "pull", "sread"}),
     "C09": dict(module="Deltio.Props.C09", push=True, conc=[("mix", 60, 3000), ("pubdel", 200, 5000)], trace_kinds={"publish", "publish.ids", "pull"}, seq=[("general", 200, 8000, 40), ("data", 100, 4000, 50)], pure=[],
                 relevant={"pub", "pull", "sread"}),
     "C10": dict(module="Deltio.Props.C10", p1=True, conc=[("namerace", 600, 20000)], trace_kinds={"attach", "remove", "delete", "delete.begin", "delete.end"}, seq=[("namespace", 300, 12000, 50)], pure=[],
                 relevant={"ctopic", "gtopic", "dtopic", "csub", "gsub", "dsub", "pub", "pull", "ack", "mod", "lsubs", "ltopics", "ltsubs"}),
-    "C11": dict(module="Deltio.Props.C11", p1=True, conc=[("namerace", 600, 20000), ("delete", 100, 3000), ("multicreate", 200, 5000)], trace_kinds={"attach", "remove", "delete", "delete.begin", "delete.end"}, seq=[("namespace", 300, 12000, 50), ("general", 100, 4000, 40)], pure=[],
+    "C11": dict(module="Deltio.Props.C11", p1=True, conc=[("namerace", 600, 20000), ("delete", 100, 3000), ("multicreate", 200, 5000), ("cancel", 100, 3000)], trace_kinds={"attach", "remove", "delete", "delete.begin", "delete.end"}, seq=[("namespace", 300, 12000, 50), ("general", 100, 4000, 40)], pure=[],
                 relevant={"dsub", "dtopic", "ltsubs", "wtsubs", "gsub", "lsubs", "wsubs", "stats", "ctopic", "csub", "pub", "pull"}),
-    "C13": dict(module="Deltio.Props.C13", trace_kinds={"attach", "remove"}, seq=[("namespace", 250, 10000, 50)], pure=["tokens"],
+    "C13": dict(module="Deltio.Props.C13", trace_kinds={"attach", "remove"}, seq=[("namespace", 250, 10000, 50), ("listing", 150, 6000, 60)], pure=["tokens"],
                 relevant={"ltopics", "lsubs", "ltsubs", "wtopics", "wsubs", "wtsubs"}),
     "C15": dict(module="Deltio.Props.C15", conc=[("mix", 60, 3000), ("wake", 60, 3000)], trace_kinds={"pull", "pull.count"}, seq=[("batches", 80, 3000, 40), ("data", 100, 4000, 50), ("general", 100, 4000, 40), ("bigbacklog", 2, 12, 0)], pure=[],
                 relevant={"pull", "sread", "sopen"}),
@@ -36,13 +36,13 @@ PROPS = {
                 relevant=ALL_SEQ_OPS),
     "C06": dict(module="Deltio.Props.C06", seq=[], pure=[], conc=[("race", 1500, 40000), ("wake", 400, 10000), ("swallow", 300, 8000), ("wakecancel", 300, 6000), ("mix", 100, 4000)],
                 relevant={"pull", "probe", "sread", "stats"}, trace_kinds={"pull", "post", "modify", "expire"}),
-    "C07": dict(module="Deltio.Props.C07", seq=[], pure=[], conc=[("burst", 150, 4000), ("delete", 150, 4000), ("cancel", 150, 4000), ("namerace", 200, 5000)],
+    "C07": dict(module="Deltio.Props.C07", seq=[], pure=[], conc=[("burst", 150, 4000), ("delete", 150, 4000), ("cancel", 150, 4000), ("namerace", 200, 5000), ("pulllimit", 60, 2000)],
                 relevant=ALL_SEQ_OPS, trace_kinds={"delete.begin", "delete.end", "remove"}),
     "C12": dict(module="Deltio.Props.C12", seq=[], pure=[], conc=[("delete", 600, 20000)],
                 relevant={"pull", "sread", "dsub", "ack", "mod", "gsub", "pub"}, trace_kinds={"delete.begin", "delete.end"}),
     "C14": dict(module="Deltio.Props.C14", seq=[("namespace", 80, 3000, 40)], pure=[], conc=[], push=True,
                 relevant={"registry", "csub", "dsub"}, trace_kinds=set()),
-    "C16": dict(module="Deltio.Props.C16", p1=True, seq=[], pure=[], conc=[("cancel", 600, 20000)],
+    "C16": dict(module="Deltio.Props.C16", p1=True, seq=[], pure=[], conc=[("cancel", 600, 20000), ("swallow", 300, 6000), ("wakecancel", 100, 3000)],
                 relevant=ALL_SEQ_OPS, trace_kinds={"attach", "remove", "pull"}),
     "C19": dict(module="Deltio.Props.C19", seq=[], pure=["flow", "flowq"], conc=[], relevant=set(), trace_kinds=set()),
     "C18": dict(module="Deltio.Props.C18", trace_kinds=set(), seq=[("namespace", 60, 2000, 30)], pure=["names"],
